@@ -480,7 +480,7 @@ CONNECT) then a generated API call mix. Oracle: no panic, termination decided by
 
     fn cpu_budget_secs() -> Option<u64> {
         // the heaviest generated case (a megabyte of nested JSON) needs well under a second of CPU
-        Some(40)
+        Some(15)
     }
 
     fn extra_evidence(tier: Tier) -> serde_json::Value {
